@@ -29,6 +29,13 @@ ENVIRONMENT = [
 ]
 
 ADDR = Opaque('addr')
+
+
+def LOpt(t):
+    """Optional[t] whose alternative is chosen when the field is first read (no path split for paths that never read it)"""
+    return OneOf(Const(None), t)
+
+
 LE = core.PhysicalTransport.LE
 BR_EDR = core.PhysicalTransport.BR_EDR
 CENTRAL = hci.Role.CENTRAL
@@ -139,6 +146,7 @@ ALLOC = dict(
     ensures_names=['handle>=1', 'handle<=0xEFF'] + UNUSED_NAMES,
     raises={StopIteration: None},
     modifies=[],
+    returns=Int,
     native_setup=nat_fix,
 )
 contract('bumble.controller:Controller.allocate_connection_handle', prop='C06', **ALLOC)
@@ -185,6 +193,21 @@ def tables_inv(self):
     ]
 
 
+def conj(cs):
+    """conjunction of a list of clauses as one clause (one proof obligation instead of len(cs))"""
+    r = True
+    for c in cs:
+        r = r and c
+    return r
+
+
+def tables_inv_post(self):
+    """the table invariant as three obligations (keys+ranges, distinct within a table, distinct across tables)"""
+    cs = tables_inv(self)
+    return [conj(cs[:10]), conj(cs[10:13]), conj(cs[13:])]
+
+
+INV_POST_NAMES = ['inv-keys-and-handle-ranges', 'inv-handles-distinct-within-each-table', 'inv-handles-distinct-across-tables']
 INV_NAMES = [
     'inv-le-keyed-by-peer', 'inv-classic-keyed-by-peer', 'inv-sco-keyed-by-peer', 'inv-central-cis-keyed-by-handle', 'inv-peripheral-cis-keyed-by-handle',
     'inv-le-handle-range', 'inv-classic-handle-range', 'inv-sco-handle-range', 'inv-central-cis-handle-range', 'inv-peripheral-cis-handle-range',
@@ -229,13 +252,64 @@ SEND_GHOST = dict(
 )
 SEND_MOD = ['ghost.' + n for n in SEND_GHOST]
 
+def timer_cancel(ghost):
+    ghost.cancelled = ghost.cancelled + 1
+
+
+def link_send_adv(ghost, sender, packet):
+    """LocalLink.send_advertising_pdu(sender_controller, packet): what is put on the air"""
+    ghost.adv_sent = ghost.adv_sent + 1
+    if isinstance(packet, ll.ConnectInd):
+        ghost.ci = ghost.ci + 1
+        ghost.ci_initiator = packet.initiator_address
+        ghost.ci_advertiser = packet.advertiser_address
+
+
+LINK_GHOST = dict(adv_sent=Int, ci=Int, ci_initiator=ADDR, ci_advertiser=ADDR)
+
+model('ghost:TimerHandle', fields={}, methods={'cancel': Callback('cancel', effect=timer_cancel)})
+model('ghost:Link', fields={}, methods={'send_advertising_pdu': Callback('send_advertising_pdu', effect=link_send_adv)})
+# the advertiser's back-reference to its controller: only the two own addresses are read through it
+CTRL_ADDR = 'bumble.controller:Controller#addr'
+model(CTRL_ADDR, fields=dict(_public_address=ADDR, _random_address=ADDR))
+LEGACY = 'bumble.controller:LegacyAdvertiser'
+model(LEGACY, fields=dict(controller=Inst(CTRL_ADDR), own_address_type=IntRange(0, 3), enabled=Bool, timer_handle=LOpt(Inst('ghost:TimerHandle')),
+                          advertising_type=IntRange(0, 4), advertising_data=Bytes, scan_response_data=Bytes))
+ADV_PARAMS = 'bumble.hci:HCI_LE_Set_Extended_Advertising_Parameters_Command#c06'
+model(ADV_PARAMS, fields=dict(own_address_type=IntRange(0, 3)))
+ADVSET = 'bumble.controller:AdvertisingSet'
+model(ADVSET, fields=dict(controller=Inst(CTRL_ADDR), handle=IntRange(0, 0xEF), parameters=LOpt(Inst(ADV_PARAMS)), enabled=Bool,
+                          timer_handle=LOpt(Inst('ghost:TimerHandle')), random_address=LOpt(ADDR)))
+CREATE = 'bumble.hci:HCI_LE_Create_Connection_Command#c06'
+model(CREATE, fields=dict(peer_address=ADDR, own_address_type=IntRange(0, 3), connection_interval_min=Int, max_latency=Int, supervision_timeout=Int))
+EXT_CREATE = 'bumble.hci:HCI_LE_Extended_Create_Connection_Command#c06'
+model(EXT_CREATE, fields=dict(peer_address=ADDR, own_address_type=IntRange(0, 3), connection_interval_mins=ConcList(Int, 1), max_latencies=ConcList(Int, 1),
+                              supervision_timeouts=ConcList(Int, 1)))
+
 CTRL = 'bumble.controller:Controller#c06'
-model(
-    CTRL,
-    fields=dict(table_fields(), _public_address=ADDR, _random_address=ADDR, name=Str),
-    methods={'send_hci_packet': Callback('send_hci_packet', effect=ctl_send)},
-)
-C = Inst(CTRL)
+_BASE_FIELDS = dict(table_fields(), _public_address=ADDR, _random_address=ADDR, name=Str)
+
+
+def ctrl_model(suffix, **extra):
+    """a view of Controller: the tables, the two own addresses and the fields one group of functions reads"""
+    name = CTRL + suffix
+    model(name, fields=dict(_BASE_FIELDS, **extra), methods={'send_hci_packet': Callback('send_hci_packet', effect=ctl_send)})
+    return name
+
+
+C = Inst(ctrl_model(''))
+CTRL_ADV = ctrl_model('-adv', link=LOpt(Inst('ghost:Link')), le_legacy_advertiser=Inst(LEGACY), advertising_sets=ext_c06.ConcDictOf(Inst(ADVSET), 0))
+CTRL_INIT = ctrl_model('-init', link=LOpt(Inst('ghost:Link')), pending_le_connection=Opt(OneOf(Inst(CREATE), Inst(EXT_CREATE))))
+PUBLIC_ADDRESS_TYPE = int(hci.Address.PUBLIC_DEVICE_ADDRESS)
+OWN_PUBLIC = int(hci.OwnAddressType.PUBLIC)
+
+
+def own_addresses_linked(self):
+    """the advertisers' `controller` is this controller (modelled as a view object with the same two addresses)"""
+    return [
+        self.le_legacy_advertiser.controller._public_address == self._public_address,
+        self.le_legacy_advertiser.controller._random_address == self._random_address,
+    ]
 
 
 # ---------------------------------------------------------------------------
@@ -265,3 +339,194 @@ for _t, _tname in ((LE, 'le'), (BR_EDR, 'classic')):
         modifies=['ghost.sent', 'ghost.acl', 'ghost.acl_handle', 'ghost.acl_pb', 'ghost.acl_len', 'ghost.acl_data'],
         native_setup=nat_fix,
     )
+
+
+# ---------------------------------------------------------------------------
+# on_le_disconnected: the disconnection is reported on the connection's handle and exactly that entry is removed
+# ---------------------------------------------------------------------------
+def others_unchanged(t, t0, key):
+    """every entry of the old table t0 except `key` is still there with the same record (columns of a connection)"""
+    return all_keys(t0, lambda k: implies(k != key, mhas(t, k) and h_of(t, k) == h_of(t0, k) and mget(t, k, 'self_address') == mget(t0, k, 'self_address')
+                                          and mget(t, k, 'peer_address') == mget(t0, k, 'peer_address') and mget(t, k, 'role') == mget(t0, k, 'role')))
+
+
+def no_new_keys(t, t0, key):
+    return all_keys(t, lambda k: k == key or mhas(t0, k))
+
+
+CONN_OBJ = 'bumble.controller:Connection#obj'
+model(CONN_OBJ, fields=dict(handle=Int, peer_address=ADDR))
+
+contract(
+    'bumble.controller:Controller.on_le_disconnected',
+    prop='C06',
+    params=dict(self=C, connection=Inst(CONN_OBJ), reason=IntRange(0, 255)),
+    ghost=SEND_GHOST,
+    # the connection is the table entry of its peer address (callers pass le_connections.get(sender) / the entry found by handle)
+    requires=lambda self, connection: tables_inv(self) + [mhas(self.le_connections, connection.peer_address), h_of(self.le_connections, connection.peer_address) == connection.handle],
+    ensures=lambda self, connection, reason, ghost, old: [
+        ghost.dc == old.ghost.dc + 1,
+        ghost.sent == old.ghost.sent + 1,
+        ghost.dc_handle == connection.handle and ghost.dc_reason == reason and ghost.dc_status == 0,
+        not mhas(self.le_connections, connection.peer_address),
+        others_unchanged(self.le_connections, old.self.le_connections, connection.peer_address),
+        no_new_keys(self.le_connections, old.self.le_connections, connection.peer_address),
+    ] + tables_inv(self),
+    ensures_names=['one-disconnection-event', 'nothing-else-sent', 'event-names-the-connection', 'entry-removed', 'other-entries-untouched', 'no-entry-added'] + INV_NAMES,
+    modifies=['self.le_connections', 'ghost.sent', 'ghost.dc', 'ghost.dc_status', 'ghost.dc_handle', 'ghost.dc_reason'],
+    native_setup=nat_fix,
+)
+
+
+# ---------------------------------------------------------------------------
+# on_le_connect_ind: only the advertiser whose address is the CONNECT_IND's advertiser address accepts
+# ---------------------------------------------------------------------------
+CONNECT_IND = 'bumble.ll:ConnectInd'
+model(CONNECT_IND, fields=dict(initiator_address=ADDR, advertiser_address=ADDR, interval=Int, latency=Int, timeout=Int))
+
+
+def legacy_address(self):
+    """address the legacy advertiser puts in its advertising PDUs"""
+    adv = self.le_legacy_advertiser
+    return self._public_address if adv.own_address_type == PUBLIC_ADDRESS_TYPE else self._random_address
+
+
+def set_address_is(self, s, a):
+    """the advertising set s advertises with address a (a set without parameters has no address)"""
+    return s.parameters is not None and (
+        (s.parameters.own_address_type == PUBLIC_ADDRESS_TYPE and self._public_address == a)
+        or (s.parameters.own_address_type != PUBLIC_ADDRESS_TYPE and s.random_address is not None and s.random_address == a)
+    )
+
+
+def sets_linked(self, n):
+    return [x for i in range(n) for x in (self.advertising_sets[i].controller._public_address == self._public_address,
+                                           self.advertising_sets[i].controller._random_address == self._random_address)]
+
+
+def connect_ind_contract(n):
+    def legacy_hit(self, packet):
+        return self.le_legacy_advertiser.enabled and legacy_address(self) == packet.advertiser_address
+
+    def set_hit(self, packet, i):
+        s = self.advertising_sets[i]
+        return s.enabled and set_address_is(self, s, packet.advertiser_address)
+
+    def any_hit(self, packet):
+        r = legacy_hit(self, packet)
+        for i in range(n):
+            r = r or set_hit(self, packet, i)
+        return r
+
+    def requires(self, packet):
+        return tables_inv(self) + own_addresses_linked(self) + sets_linked(self, n) + [self.link is not None]
+
+    def ensures(self, packet, ghost, old):
+        le, le0 = self.le_connections, old.self.le_connections
+        me, peer = packet.advertiser_address, packet.initiator_address
+        hit = any_hit(old.self, packet)
+        return [
+            # a bystander (no enabled advertiser with that address) does nothing at all
+            implies(not hit, ghost.sent == old.ghost.sent and ghost.cc == old.ghost.cc),
+            implies(not hit, others_unchanged(le, le0, me) and iff(mhas(le, me), mhas(le0, me)) and no_new_keys(le, le0, me)),
+            implies(not hit and mhas(le0, me), h_of(le, me) == h_of(le0, me)),
+            # the addressed advertiser accepts: one connection complete event ...
+            implies(hit, ghost.cc == old.ghost.cc + 1 and ghost.cc_status == 0 and ghost.cc_role == PERIPHERAL and ghost.cc_peer == peer),
+            # ... for the new table entry of the initiator, whose own address is the advertiser address of the CONNECT_IND
+            implies(hit, mhas(le, peer) and mget(le, peer, 'peer_address') == peer and mget(le, peer, 'self_address') == me),
+            implies(hit, mget(le, peer, 'role') == PERIPHERAL and mget(le, peer, 'transport') == LE and h_of(le, peer) == ghost.cc_handle),
+            # ... on a handle that no entry of any table had before
+            implies(hit, unused(old.self, ghost.cc_handle)),
+            implies(hit, others_unchanged(le, le0, peer) and no_new_keys(le, le0, peer)),
+            # the advertiser that accepted stops advertising (legacy has priority, as in the code)
+            implies(legacy_hit(old.self, packet), not self.le_legacy_advertiser.enabled),
+        ] + tables_inv_post(self)
+
+    names = ['bystander-sends-nothing', 'bystander-table-untouched', 'bystander-handle-untouched', 'one-connection-complete-for-the-initiator',
+             'entry-for-the-initiator-with-advertiser-address', 'entry-role-transport-handle', 'handle-was-unused-in-every-table', 'other-entries-untouched',
+             'legacy-advertiser-stopped'] + INV_POST_NAMES
+
+    def on_exhausted(self, packet, ghost, old):
+        le, le0 = self.le_connections, old.self.le_connections
+        return [ghost.sent == old.ghost.sent, others_unchanged(le, le0, packet.initiator_address), iff(mhas(le, packet.initiator_address), mhas(le0, packet.initiator_address))]
+
+    contract(
+        'bumble.controller:Controller.on_le_connect_ind',
+        key=f'bumble.controller:Controller.on_le_connect_ind@sets{n}',
+        prop='C06',
+        params=dict(self=Inst(CTRL_ADV, advertising_sets=ext_c06.ConcDictOf(Inst(ADVSET), n)), packet=Inst(CONNECT_IND)),
+        ghost=dict(SEND_GHOST, cancelled=Int, **LINK_GHOST),
+        requires=requires,
+        ensures=ensures,
+        ensures_names=names,
+        raises={StopIteration: on_exhausted},
+        modifies=['self.le_connections', 'self.le_legacy_advertiser.enabled', 'self.le_legacy_advertiser.timer_handle', 'ghost.cancelled']
+        + [f'self.advertising_sets[{i}].{f}' for i in range(n) for f in ('enabled', 'timer_handle')] + SEND_MOD,
+        uses=['bumble.controller:Controller.allocate_connection_handle'],
+        inline=['Controller.public_address', 'Controller.random_address', 'LegacyAdvertiser.address', 'AdvertisingSet.address', 'LegacyAdvertiser.stop',
+                'AdvertisingSet.stop', 'Connection.__post_init__', 'HCI_AclDataPacketAssembler.__init__'],
+        native_setup=nat_fix,
+        note='' if n == 0 else f'bounded(2): {n} extended advertising set(s); the connection tables are of any size',
+    )
+
+
+for _n in (0, 1):
+    connect_ind_contract(_n)
+
+
+# ---------------------------------------------------------------------------
+# create_le_connection: the initiator's entry for the advertiser it asked for, with the own address it asked for
+# ---------------------------------------------------------------------------
+def initiator_address(self, pending):
+    """own address of the pending LE Create Connection command: public iff own_address_type is PUBLIC"""
+    return self._public_address if pending.own_address_type == OWN_PUBLIC else self._random_address
+
+
+def create_le_ensures(self, peer_address, ghost, old):
+    le, le0 = self.le_connections, old.self.le_connections
+    pending = old.self.pending_le_connection
+    me = initiator_address(old.self, pending)
+    fresh = not mhas(le0, peer_address)
+    return [
+        # already connected to that peer: nothing happens
+        implies(not fresh, ghost.sent == old.ghost.sent and ghost.adv_sent == old.ghost.adv_sent and others_unchanged(le, le0, peer_address) and h_of(le, peer_address) == h_of(le0, peer_address)),
+        # otherwise one CONNECT_IND goes on the air, from the requested own address to the requested advertiser
+        implies(fresh and self.link is not None, ghost.ci == old.ghost.ci + 1 and ghost.adv_sent == old.ghost.adv_sent + 1 and ghost.ci_initiator == me and ghost.ci_advertiser == peer_address),
+        # the host is told about exactly one connection, as central, to that peer
+        implies(fresh, ghost.cc == old.ghost.cc + 1 and ghost.sent == old.ghost.sent + 1 and ghost.cc_status == 0 and ghost.cc_role == CENTRAL and ghost.cc_peer == peer_address),
+        # the table entry of that peer carries the same handle and the own address used in the CONNECT_IND
+        implies(fresh, mhas(le, peer_address) and mget(le, peer_address, 'peer_address') == peer_address and mget(le, peer_address, 'self_address') == me),
+        implies(fresh, mget(le, peer_address, 'role') == CENTRAL and mget(le, peer_address, 'transport') == LE and h_of(le, peer_address) == ghost.cc_handle),
+        implies(fresh, unused(old.self, ghost.cc_handle)),
+        implies(fresh, others_unchanged(le, le0, peer_address) and no_new_keys(le, le0, peer_address)),
+        implies(fresh, self.pending_le_connection is None),
+    ] + tables_inv_post(self)
+
+
+CREATE_LE_NAMES = ['already-connected-is-a-no-op', 'one-connect-ind-from-own-address-to-the-advertiser', 'one-connection-complete-as-central', 'entry-for-the-advertiser-with-own-address',
+                   'entry-role-transport-handle', 'handle-was-unused-in-every-table', 'other-entries-untouched', 'pending-connect-consumed'] + INV_POST_NAMES
+
+
+def create_le_exhausted(self, peer_address, ghost, old):
+    le, le0 = self.le_connections, old.self.le_connections
+    return [ghost.sent == old.ghost.sent, ghost.adv_sent == old.ghost.adv_sent, others_unchanged(le, le0, peer_address), iff(mhas(le, peer_address), mhas(le0, peer_address))]
+
+
+CREATE_LE = dict(
+    params=dict(self=Inst(CTRL_INIT, pending_le_connection=OneOf(Inst(CREATE), Inst(EXT_CREATE))), peer_address=ADDR),
+    ghost=dict(SEND_GHOST, **LINK_GHOST),
+    # called by on_advertising_pdu for the advertiser the pending LE Create Connection command names (never without one)
+    requires=lambda self, peer_address: tables_inv(self) + [self.pending_le_connection.peer_address == peer_address],
+    ensures=create_le_ensures,
+    ensures_names=CREATE_LE_NAMES,
+    raises={StopIteration: create_le_exhausted},
+    modifies=['self.le_connections', 'self.pending_le_connection'] + SEND_MOD + ['ghost.' + n for n in LINK_GHOST],
+    native_setup=nat_fix,
+)
+contract(
+    'bumble.controller:Controller.create_le_connection',
+    prop='C06',
+    uses=['bumble.controller:Controller.allocate_connection_handle'],
+    inline=['Controller.public_address', 'Controller.random_address', 'Controller.send_advertising_pdu', 'Connection.__post_init__', 'HCI_AclDataPacketAssembler.__init__'],
+    **CREATE_LE,
+)
